@@ -9,6 +9,15 @@ import sys
 
 HERE = os.path.dirname(os.path.dirname(os.path.abspath(__file__)))
 pid, suffix = sys.argv[1], sys.argv[2]
+# optional third argument: "edges" asks for changes that hide behind unusual-but-legal ways of calling the library
+VARIANT = ""
+if len(sys.argv) > 3 and sys.argv[3] == "edges":
+    VARIANT = ("* Prefer changes that hide behind *unusual but legal ways of using the API* rather than behind an unusual trie shape:\n"
+               "  another container or argument type the API accepts (list vs tuple vs generator vs a subclass, bytearray-like\n"
+               "  views where bytes are accepted, a dict subclass as database), the kind of exception that leaves a block\n"
+               "  (BaseException vs Exception), re-use of an object after an error, aliasing between objects the API returned earlier\n"
+               "  and internal state, calling order nobody tests (query before first write, the same call twice), empty and\n"
+               "  maximal sizes, alternate entry points to the same operation (`[]`, `in`, `del`, context managers, classmethods).\n")
 prop = [json.loads(l) for l in open(os.path.join(HERE, "properties.jsonl")) if json.loads(l)["id"] == pid][0]
 wt = "/tmp/wt/%s%s" % (pid, suffix)
 os.makedirs("/tmp/wt", exist_ok=True)
@@ -39,7 +48,7 @@ Rules
   "simplification" (an off-by-one, a wrong comparison, a dropped case, a reordered statement, a missing copy, a
   forgotten prune/cleanup, an aliasing bug, a wrong default ...). No magic constants, no `if key == b"secret"`,
   no randomness, no environment checks.
-* The change must need something *specific* to manifest — a particular multi-step sequence of operations, an
+%(variant)s* The change must need something *specific* to manifest — a particular multi-step sequence of operations, an
   unusual but legal input shape, a fault at a particular point, a particular interleaving, or two cooperating
   sites that each look fine alone — NOT something that ordinary use would expose at once.
 * Each change must be small (a few lines).
@@ -56,5 +65,5 @@ Before finishing, verify for each mutant yourself: demo exits 0 on the clean tre
 exits non-zero AND the full existing test suite gives the same passes as on the clean tree. Finally restore the
 source (`git checkout -- trie`) so that the worktree is clean apart from PROPERTY.md, TASK.md and the two mutant
 directories. Reply with a short summary of the two mutants.
-""" % dict(wt=wt, pid=pid))
+""" % dict(wt=wt, pid=pid, variant=VARIANT))
 print(wt)
